@@ -1,3 +1,4 @@
+import Driver.Ev.LockWrapped
 import Ekit.Props.C06
 import Ekit.Props.C06HW
 import Ekit.Props.C06Heap
@@ -88,3 +89,6 @@ open Ekit.Props.C06
 #print axioms c06_clq_enqueuers_spin_while_unswung
 #print axioms c06_clq_spin_witness
 #print axioms c06_clq_conservation
+-- the event replayer of ConcurrentPriorityQueue (Driver/Ev/LockWrapped.lean) repeats the three glue definitions of
+-- Props/C06Heap.lean (the driver must not import Props): they are the same
+example : @Driver.Ev.CPQ.rawParams = @Ekit.Props.C06.rawParams := rfl
